@@ -90,8 +90,10 @@ def parse_tlc(out, res):
         res.violated.append(m.group(1))
     for m in _re_act.finditer(out):
         res.violated.append(m.group(1))
-    if "Temporal properties were violated" in out:
+    if "Temporal properties were violated" in out or re.search(r"Temporal property \S+ was violated", out):
         res.violated.append("TEMPORAL")
+        for m in re.finditer(r"Temporal property (\S+) was violated", out):
+            res.violated.append(m.group(1))
     if "Deadlock reached" in out:
         res.violated.append("DEADLOCK")
     m = re.search(r"Error: The postcondition (\S+)? ?.*", out)
@@ -319,7 +321,7 @@ class Ctx:
         with open(trace_file, "w") as f:
             json.dump(events, f, separators=(",", ":"))
         r = self.tlc(spec_subdir, module, cfg, extra_files=[trace_file], **kw)
-        m = re.search(r'<<"@@REJECT", (\d+), (.*)>>', r.stdout)
+        m = re.search(r'<<\s*"@@REJECT",\s*(\d+),\s*(.*?)\s*>>', r.stdout, re.S)
         r.reject = (int(m.group(1)), m.group(2)) if m else None
         if r.timeout or (r.error and not r.violated):
             raise Inconclusive("TLC trace validation %s %s: %s" % (module, cfg, r.error[:1000]))
